@@ -303,6 +303,20 @@ func GenSProgram(t *rapid.T, cfg SGenCfg) SProgram {
 				o.Fail = rapid.Permutation(seqInts(nodes)).Draw(t, "rvfailperm")[:nf]
 			}
 			p.Ops = append(p.Ops, o)
+		case "revertfail":
+			// a volume snapshot, a write, possibly one replica removed (so that the rest is
+			// exactly the quorum), then a volume revert that fails on one of the replicas
+			name := fmt.Sprintf("v%d", len(p.Ops))
+			snapNames = append(snapNames, name)
+			p.Ops = append(p.Ops, SOp{K: "snapshot", Name: name})
+			off := rapid.Int64Range(0, total-1).Draw(t, "off")
+			p.Ops = append(p.Ops, SOp{K: "write", Off: off, Len: rapid.Int64Range(1, min64(total-off, 24)).Draw(t, "len"), Seed: rapid.IntRange(1, 250).Draw(t, "seed")})
+			perm := rapid.Permutation(seqInts(nodes)).Draw(t, "ab")
+			if nodes >= 3 && rapid.Bool().Draw(t, "removeone") {
+				p.Ops = append(p.Ops, SOp{K: "remove", Node: perm[0]})
+			}
+			p.Ops = append(p.Ops, SOp{K: "ctlrevert", N: int64(rapid.IntRange(0, 7).Draw(t, "which")), Fail: []int{perm[len(perm)-1]}},
+				SOp{K: "write", Off: off, Len: 8, Seed: rapid.IntRange(1, 250).Draw(t, "seed2")})
 		case "ctldelsnap":
 			p.Ops = append(p.Ops, SOp{K: "ctldelsnap", N: int64(rapid.IntRange(0, 7).Draw(t, "which"))})
 		case "addresize":
